@@ -2,7 +2,7 @@
 C13 — one-degree-of-freedom devices (inverter, gear train, axle) relay the newest command to every terminal,
 mapped from the issuing side to the reading side; chains relay to the far end; a differential never alters commands.
 Tier S throughout (no law of the scalar is used), except `invert_side2_roundtrip` (tier L, `-(-x) = x`) and
-`chain_scale_is_product` (tier R, in `Rrtk/Thm/C13R` section at the end of this file).
+`chain_scale_is_product` / `chain_relays_scaled` (tier R, section `R` near the end of this file).
 -/
 import Rrtk.Devices
 import Rrtk.Thm.Lemmas.Exact
@@ -1128,6 +1128,15 @@ example : gearSide1Wins (exW.getCommand 0) (exW.getCommand 1) = false := by rfl
 -- and the other way round (terminal roles swapped: side 1 = terminal 1 wins, side 2 reads 4 * 2)
 example : (GearTrain.update 2 exW 1 0).getCommand 0 = some ⟨9, .position 8⟩ :=
   (gear_relays_newest 2 exW 1 0 (by decide) (by decide) (by decide)).2
+/-- why `hext1`/`hext2` are there: a gear train whose own two terminals are connected to EACH OTHER (a degenerate wiring).
+Terminal 1 holds ⟨5, position 4⟩; both terminals read it (a tie), side 1 "wins", slot 1 is overwritten with 4·2 and
+terminal 0 — which has no slot of its own — now reads 8 instead of the 4 it read before. -/
+def exLoop : World Int := ⟨2, fun
+  | 0 => ⟨none, none, some 1⟩
+  | 1 => ⟨none, some ⟨5, .position 4⟩, some 0⟩
+  | _ => World.freshTerm⟩
+example : (GearTrain.update 2 exLoop 0 1).getCommand 0 = some ⟨5, .position 8⟩ ∧
+    (gearReads 2 (exLoop.getCommand 0) (exLoop.getCommand 1)).1 = some ⟨5, .position 4⟩ := ⟨rfl, rfl⟩
 -- axle over three terminals, one of which sees nothing
 example : newestOf ([0, 4, 1].map exW.getCommand) = some ⟨9, .position 4⟩ := by rfl
 example : (Axle.update exW [0, 4, 1]).getCommand 4 = some ⟨9, .position 4⟩ :=
@@ -1155,11 +1164,9 @@ def exC : World Int := ⟨7, fun
   | _ => World.freshTerm⟩
 def exDevs : List (Dev1 Int) := [.gear 3 2 3, .axle [4, 5, 6] 4 5]
 
-theorem exC_ok : ChainOK exC (.inv 0 1 :: exDevs) := by
-  simp [ChainOK, exDevs, Dev1.WF, Dev1.terms, Dev1.fst, Dev1.snd, chainTerms, exC, World.freshTerm]
-
 example : (runChain exC (.inv 0 1 :: exDevs)).getCommand 5 = some ⟨5, .velocity (-21)⟩ :=
-  chain_relays_fresh (.inv 0 1) exDevs exC ⟨5, .velocity 7⟩ exC_ok rfl
+  chain_relays_fresh (.inv 0 1) exDevs exC ⟨5, .velocity 7⟩
+    (by simp [ChainOK, exDevs, Dev1.WF, Dev1.terms, Dev1.fst, Dev1.snd, chainTerms, exC, World.freshTerm]) rfl
     (fun j hj => by
       simp only [Dev1.fst] at hj
       match j, hj with
